@@ -36,6 +36,9 @@ class ThrottleDriver:
         from haiway import throttle
         self.n = len(init["pc"])
         limit, period = init["limit"], init["period"]
+        # one model tick is 1 s for a float period and 0.25 s for a timedelta period (exact in binary), so that the
+        # timedelta has a sub-second part and a reading of `.seconds` instead of `.total_seconds()` would show
+        self.unit = 1.0 if init["pform"] == "float" else 0.25
         self.loop = loop = VLoop(start=T0)
         self.clock = VClock(loop)
         self.clock.__enter__()
@@ -49,14 +52,15 @@ class ThrottleDriver:
 
         async def fn(c, *, tag):
             assert tag == "t"
-            drv.starts.append(dict(c=c, t=loop.time() - T0))
+            t = (loop.time() - T0) / drv.unit
+            drv.starts.append(dict(c=c, t=int(t) if t == int(t) else t))
             g = drv.gates[c] = loop.create_future()
             o = await g
             if o == "val":
                 return drv.vals[c]
             raise drv.errs[c]
 
-        p = float(period) if init["pform"] == "float" else timedelta(seconds=period)
+        p = float(period) if init["pform"] == "float" else timedelta(seconds=period * self.unit)
         self.wrapped = throttle(limit=limit, period=p)(fn)
 
     async def _caller(self, c):
@@ -81,7 +85,7 @@ class ThrottleDriver:
             self.tasks[c] = self.loop.create_task(self._caller(c))
         elif name == "Tick":
             self.now += 1
-            self.loop.advance(T0 + self.now)
+            self.loop.advance(T0 + self.now * self.unit)
         elif name == "FnEnd":
             self.gates[args[0]].set_result(args[1])
         elif name == "Cancel":
